@@ -11,7 +11,7 @@ import z3
 from . import REGISTRY as R
 from .core import (val_eq, z_and, z_or, z_not, z_any, z_all, generic_args, qself, FmtArgs, m_panic)
 from ..parser import Unsupported, strip_generics
-from ..values import (Adt, LV, Ref, BoxV, PyVec, PySlice, PyMap, Opaque, TokStr, ZStr, SegStr, Bytes, STRLEN, Some, NONE,
+from ..values import (Adt, LV, Ref, BoxV, PyVec, PySlice, PyMap, Opaque, TokStr, ZStr, SegStr, NumStr, Bytes, STRLEN, Some, NONE,
                       Ok, Err, Tuple, UNIT, is_sym, copy_val, clone_val, deref, deref1, mkref)
 from ..explore import Panic
 
@@ -28,6 +28,8 @@ def zs(v):
 
 
 def _seg_of(v):
+    if isinstance(v, NumStr):
+        return [('num', v.v)]
     if isinstance(v, SegStr):
         return v.segs
     if isinstance(v, str):
@@ -54,7 +56,48 @@ def _uuid_piece_eq(piece, chars):
     return piece[1] == int(s, 16)
 
 
+def _has_num(segs):
+    return any(not isinstance(x, str) and x[0] == 'num' for x in segs)
+
+
+def seg_eq_num(a, b):
+    """equality when variable-length number pieces occur: supported shapes are literal(+piece)*  with identical
+    literal skeleton, or concrete string vs literal + trailing number"""
+    a, b = list(a), list(b)
+    if all(isinstance(x, str) for x in a) or all(isinstance(x, str) for x in b):
+        conc, seg = (a, b) if all(isinstance(x, str) for x in a) else (b, a)
+        text = ''.join(conc)
+        if len(seg) == 1 and not isinstance(seg[0], str):
+            ci = _canon_int(text)
+            return False if ci is None else seg[0][1] == ci
+        if len(seg) == 2 and isinstance(seg[0], str) and not isinstance(seg[1], str) and seg[1][0] == 'num':
+            if not text.startswith(seg[0]):
+                return False
+            ci = _canon_int(text[len(seg[0]):])
+            return False if ci is None else seg[1][1] == ci
+        raise Unsupported(f'string comparison {a!r} vs {b!r}')
+    if len(a) == len(b) and all((isinstance(x, str) and isinstance(y, str)) or
+                                (not isinstance(x, str) and not isinstance(y, str) and x[0] == y[0]) for x, y in zip(a, b)):
+        res = True
+        for x, y in zip(a, b):
+            if isinstance(x, str):
+                if x != y:
+                    return False
+            else:
+                res = z_and(res, x[1] == y[1])
+        return res
+    # different skeletons: decide by the leading literals when they already disagree
+    la = a[0] if isinstance(a[0], str) else ''
+    lb = b[0] if isinstance(b[0], str) else ''
+    n = min(len(la), len(lb))
+    if la[:n] != lb[:n]:
+        return False
+    raise Unsupported(f'string comparison {a!r} vs {b!r}')
+
+
 def seg_eq(a, b):
+    if _has_num(a) or _has_num(b):
+        return seg_eq_num(a, b)
     ua, ub = _split_seg(a), _split_seg(b)
     la = sum(1 if isinstance(x, str) else 32 for x in ua)
     lb = sum(1 if isinstance(x, str) else 32 for x in ub)
@@ -92,10 +135,29 @@ def seg_eq(a, b):
     return res
 
 
+def _canon_int(s):
+    """int value of a concrete string iff it is a canonical decimal rendering, else None"""
+    if re.fullmatch(r'-?[1-9][0-9]*|0', s) and s != '-0':
+        return int(s)
+    return None
+
+
 def str_eq(a, b):
     a, b = deref(a), deref(b)
     if isinstance(a, str) and isinstance(b, str):
         return a == b
+    if isinstance(a, NumStr) or isinstance(b, NumStr):
+        if isinstance(a, NumStr) and isinstance(b, NumStr):
+            return a.v == b.v
+        n, o = (a, b) if isinstance(a, NumStr) else (b, a)
+        if isinstance(o, str):
+            ci = _canon_int(o)
+            return False if ci is None else (n.v == ci)
+        if isinstance(o, SegStr):
+            if len(o.segs) == 1 and isinstance(o.segs[0], tuple) and o.segs[0][0] == 'num':
+                return n.v == o.segs[0][1]
+            return False if all(isinstance(x, str) or x[0] != 'num' for x in o.segs) and not all(isinstance(x, str) for x in o.segs) else _numstr_vs_seg(n, o)
+        raise Unsupported(f'NumStr compared with {o!r}')
     if isinstance(a, TokStr) and isinstance(b, TokStr):
         return a.id == b.id
     if isinstance(a, TokStr) or isinstance(b, TokStr):
@@ -116,6 +178,10 @@ def str_eq(a, b):
         return val_eq(into_bytes(None, a) if not isinstance(a, (PyVec, PySlice)) else a,
                       into_bytes(None, b) if not isinstance(b, (PyVec, PySlice)) else b)
     raise Unsupported(f'string equality {a!r} vs {b!r}')
+
+
+def _numstr_vs_seg(n, o):
+    raise Unsupported(f'NumStr compared with structured string {o!r}')
 
 
 _INTERN = {}
@@ -155,11 +221,26 @@ def str_len(I, v):
         return z3.Length(v.t)
     if isinstance(v, SegStr):
         return v.length()
+    if isinstance(v, NumStr):
+        return num_len(I, v.v)
     if hasattr(v, 'len_model'):
         return v.len_model(I)
     if isinstance(v, (PyVec, PySlice)):
         return len(v.items)
     raise Unsupported(f'len of {v!r}')
+
+
+def num_len(I, t):
+    """number of characters of the decimal rendering (forks by magnitude; values beyond 40 digits unsupported)"""
+    if isinstance(t, int):
+        return len(str(t))
+    c = I.ctx
+    neg = 1 if c.branch(t < 0) else 0
+    for d in range(1, 41):
+        bound = 10 ** d
+        if c.branch(z3.And(t > -bound, t < bound)):
+            return d + neg
+    raise Unsupported('decimal rendering longer than 40 digits')
 
 
 def into_bytes(I, v):
@@ -193,7 +274,11 @@ def concat2(a, b):
     a, b = deref(a), deref(b)
     if isinstance(a, str) and isinstance(b, str):
         return a + b
-    if isinstance(a, (SegStr,)) or isinstance(b, (SegStr,)):
+    if a == '':
+        return b
+    if b == '':
+        return a
+    if isinstance(a, (SegStr, NumStr)) or isinstance(b, (SegStr, NumStr)):
         sa, sb = _seg_of(a), _seg_of(b)
         if sa is None or sb is None:
             raise Unsupported(f'concat {a!r} + {b!r}')
@@ -224,15 +309,14 @@ def concat_all(I, xs):
 def int_to_str(v):
     if isinstance(v, int):
         return str(v)
-    # z3: IntToStr is defined for non-negative ints only
-    return ZStr(z3.If(v >= 0, z3.IntToStr(v), z3.Concat(z3.StringVal('-'), z3.IntToStr(-v))))
+    return NumStr(v)
 
 
 def display(I, val, ty=''):
     """Display::fmt output as a string value"""
     v = deref(val)
     t = strip_generics(ty).lstrip('&').split('::')[-1]
-    if isinstance(v, (str, TokStr, ZStr, SegStr)):
+    if isinstance(v, (str, TokStr, ZStr, SegStr, NumStr)):
         return v
     if isinstance(v, bool):
         return 'true' if v else 'false'
@@ -381,7 +465,7 @@ def m_str_method(I, path, args):
     meth = strip_generics(path).split('::')[-1]
     a0 = args[0]
     s = deref(a0)
-    if not isinstance(s, (str, TokStr, ZStr, SegStr)):
+    if not isinstance(s, (str, TokStr, ZStr, SegStr, NumStr)):
         if hasattr(s, 'len_model'):
             if meth in ('len', 'capacity'):
                 return s.len_model(I)
@@ -408,6 +492,8 @@ def m_str_method(I, path, args):
     if meth == 'capacity':
         return str_len(I, s)
     if meth == 'is_empty':
+        if isinstance(s, NumStr):
+            return False
         if isinstance(s, str):
             return s == ''
         if isinstance(s, SegStr):
@@ -537,6 +623,25 @@ def m_str_method(I, path, args):
 def _affix(s, p, prefix):
     if isinstance(s, str) and isinstance(p, str):
         return s.startswith(p) if prefix else s.endswith(p)
+    if isinstance(s, NumStr) or (isinstance(s, SegStr) and _has_num(s.segs)):
+        if not isinstance(p, str) or not prefix:
+            raise Unsupported(f'affix test {s!r} / {p!r}')
+        segs = _seg_of(s)
+        if p == '':
+            return True
+        if isinstance(segs[0], str):
+            lit = segs[0]
+            if len(lit) >= len(p):
+                return lit.startswith(p)
+            if not p.startswith(lit):
+                return False
+            rest = p[len(lit):]
+        else:
+            rest = p
+        # the next piece is a number: it begins with '-' or a digit
+        if rest[0] not in '-0123456789':
+            return False
+        raise Unsupported(f'prefix test reaching into a number piece: {s!r} / {p!r}')
     if isinstance(s, SegStr) or isinstance(p, SegStr):
         us, up = _split_seg(_seg_of(s)), _split_seg(_seg_of(p))
         ls = sum(1 if isinstance(x, str) else 32 for x in us)
@@ -572,6 +677,14 @@ def _substr(I, s, a, b):
             return sub.decode()
         except UnicodeDecodeError:
             raise Panic('byte index is not a char boundary')
+    if isinstance(s, SegStr) and _has_num(s.segs):
+        if b is None and isinstance(a, int) and isinstance(s.segs[0], str) and a <= len(s.segs[0].encode()):
+            lit = s.segs[0].encode()[a:].decode()
+            rest = ([lit] if lit else []) + list(s.segs[1:])
+            if len(rest) == 1 and not isinstance(rest[0], str) and rest[0][0] == 'num':
+                return NumStr(rest[0][1])
+            return SegStr(rest)
+        raise Unsupported(f'slice of {s!r}')
     if isinstance(s, SegStr):
         us = _split_seg(s.segs)
         out, acc = [], 0
@@ -640,6 +753,13 @@ def parse_str(I, s, ty):
                 if lo <= v <= hi:
                     return Ok(v)
             return Err(Opaque('ParseIntError'))
+        if isinstance(s, NumStr):
+            ok = z_and(s.v >= lo, s.v <= hi)
+            return Ok(s.v) if I.ctx.branch(ok) else Err(Opaque('ParseIntError'))
+        if isinstance(s, SegStr) and _has_num(s.segs):
+            if any(isinstance(x, str) for x in s.segs):
+                return Err(Opaque('ParseIntError'))
+            raise Unsupported('parse of adjacent number pieces')
         if isinstance(s, ZStr):
             st = s.t
             c = I.ctx
@@ -687,8 +807,12 @@ def uuid_parse(I, s):
         if m:
             return uuid_parse(I, m.group(1))
         return Err(Opaque('uuid::Error'))
+    if isinstance(s, NumStr):
+        return Err(Opaque('uuid::Error'))       # harness keeps |v| < 10^31: never 32 hex digits
+    if isinstance(s, SegStr) and _has_num(s.segs):
+        return Err(Opaque('uuid::Error'))
     if isinstance(s, SegStr):
-        if len(s.segs) == 1 and not isinstance(s.segs[0], str):
+        if len(s.segs) == 1 and not isinstance(s.segs[0], str) and s.segs[0][0] == 'uuid':
             return Ok(s.segs[0][1])
         if all(isinstance(x, str) for x in s.segs):
             return uuid_parse(I, ''.join(s.segs))
